@@ -1,16 +1,15 @@
-import Mathlib.Tactic
-open List
-#check @List.getD_eq_getElem?_getD
-#check @List.getD_eq_getElem
-#check @List.getElem?_eq_getElem
-#check @List.getElem?_append_left
-#check @List.getElem?_append_right
-#check @List.getElem?_map
-#check @List.idxOf_append_of_mem
-#check @List.idxOf_append_of_notMem
-#check @List.getElem?_idxOf
-#check @List.getElem_idxOf
-#check @List.getElem?_finRange
-#check @List.getElem_finRange
-#check @List.sum_toFinset
-example (l : List Nat) (a : Nat) (h : a < l.length) : l.getD a 0 = l[a] := by simp [h]
+#check @Float.log1p
+#check @Float.expm1
+#check (inferInstance : Zero Float)
+#check (inferInstance : One Float)
+#check (inferInstance : NatCast Float)
+#check (inferInstance : Neg Float)
+#check (inferInstance : Div Float)
+#check (inferInstance : DecidableLT Float)
+#check @Float.ofBits
+#check @Float.abs
+#check @Float.atan2
+#eval (Float.ofBits 4607182418800017408)
+#eval (2.5 : Float).toBits
+#check @Array.getElem_ofFn
+#check @Float.isNaN
